@@ -77,7 +77,8 @@ PROPS = {
         "n": {"quick": 350, "thorough": 3000},
     },
     "C03": {
-        "theorems": ["C03_raw_sound", "C03_task_constraints", "C03_optional_constraints", "C03_scheduleN_lower", "C03_scheduleN_enforced", "C03_spec_sound"],
+        "theorems": ["C03_raw_sound", "C03_task_constraints", "C03_optional_constraints", "C03_scheduleN_lower", "C03_scheduleN_enforced",
+                     "ContiguousOK_pairwise", "gaps_pairwise", "C03_spec_sound"],
         "modules": ["SpecSound"],
         "profiles": [("taskc", 0.45), ("focus_taskc", 0.35), ("all", 0.2)],
         "relevant": lambda o: owner_in(o, (), TASK_CLASSES),
@@ -95,7 +96,8 @@ PROPS = {
     "C04": {
         "theorems": ["C04_raw_sound", "C04_resource_constraints", "workloadOne_sound", "sortNoDup_sound", "C04_periodic_own_period",
                      "C04_periodic_enforced", "interruptedOne_sound", "periodicInterruptedOne_sound",
-                     "periodic_overlap_closed_form", "repsInside_spec", "folded_not_inside", "C04_spec_sound"],
+                     "periodic_overlap_closed_form", "repsInside_spec", "folded_not_inside", "GapsOK_pairwise", "gaps_pairwise",
+                     "sortInts_getD_rank", "C04_spec_sound"],
         "modules": ["SpecSound"],
         "profiles": [("resc", 0.45), ("focus_resc", 0.4), ("all", 0.15)],
         "relevant": lambda o: owner_in(o, (), RES_CLASSES),
